@@ -173,6 +173,75 @@ def gen_flip_prim(rng, var="x"):
         math.hypot(float(d1[0]), float(d1[1])), math.hypot(float(w[0]), float(w[1])) / 4)
 
 
+def gen_bad_interval(rng, params, var="y"):
+    """intervals with badly scaled end points (dyadic): tiny upper / lower bound next to a large one, crossing zero
+    asymmetrically, nearly equal large bounds; optionally parameter-dependent"""
+    from geomgen import PF, c, v
+    # float32 values of decimal numbers (NOT dyadic with few bits: `lb + (ub − lb)` then rounds in float32) and dyadic ones
+    tiny = rng.choice([Fr(f32(x)) for x in (0.01, 0.001, 0.1, 0.004, 0.03, 0.0007, 0.25, 0.0123)] +
+                      [Fr(rng.choice([1, 3, 5]), 2 ** rng.choice([7, 9, 12]))])
+    big = rng.choice([Fr(f32(x)) for x in (1, 2, 5, 17, 40, 64, 2.3, 7.7, 0.9)])
+    kind = rng.choice(["tiny-ub", "tiny-ub", "tiny-lb", "cross", "near-equal", "tiny-neg-ub"])
+    if kind == "tiny-ub":
+        lb, ub = -big, tiny
+    elif kind == "tiny-neg-ub":
+        lb, ub = -big, -tiny
+    elif kind == "tiny-lb":
+        lb, ub = -tiny, big
+    elif kind == "cross":
+        lb, ub = -tiny, big * tiny * 64
+    else:
+        lb, ub = big, big + Fr(rng.choice([1, 3]), rng.choice([8, 16, 32]))
+    if params and rng.random() < 0.4:
+        t = params[0]
+        # [lb − t, ub·t'] style dependence that keeps lb < ub for t in [1/16, 1]
+        lo = ("-", c(lb), v(t))
+        hi = ("*", c(ub), ("+", c(1), v(t))) if ub > 0 else c(ub)
+        return Node("interval", var, [PF([lo]), PF([hi])])
+    return Node("interval", var, [PF([c(lb)]), PF([c(ub)])])
+
+
+def gen_touching(rng, conf=None, flagged=None):
+    """Boolean nodes built with the `contained` / `disjoint` flags (and without), incl. touching configurations: the
+    second operand is given in barycentric coordinates of the parallelogram A"""
+    from geomgen import PF, c, dy
+    # A is an axis-parallel rectangle with dyadic corners (either orientation / sign of the edge directions): every
+    # comparison the membership tests make on the shared pieces is then exact in float32, so what the unchanged library does
+    # on touching configurations is deterministic (on slanted shared edges it depends on rounding — those stay skipped)
+    o = [dy(rng, -2, 2), dy(rng, -2, 2)]
+    w_, h_ = rng.choice([-1, 1]) * dy(rng, 1, 3), rng.choice([-1, 1]) * dy(rng, 1, 3)
+    d1, d2 = ([w_, Fr(0)], [Fr(0), h_]) if rng.random() < 0.5 else ([Fr(0), h_], [w_, Fr(0)])
+    def at(s_, t_):
+        return [o[0] + s_ * d1[0] + t_ * d2[0], o[1] + s_ * d1[1] + t_ * d2[1]]
+    def pf(pt):
+        return PF([c(pt[0]), c(pt[1])])
+    A = Node("par", "x", [pf(at(0, 0)), pf(at(1, 0)), pf(at(0, 1))])
+    e8 = lambda lo, hi: Fr(rng.randint(lo, hi), 8)
+    conf = conf or rng.choice(["edge", "edge", "corner", "hole", "tri-on-edge", "adjacent", "adjacent"])
+    if conf == "edge":
+        a, b1, b2 = e8(1, 4), e8(1, 3), e8(1, 4)
+        Bn = Node("par", "x", [pf(at(a, 0)), pf(at(a + b1, 0)), pf(at(a, b2))])
+    elif conf == "corner":
+        b1, b2 = e8(1, 4), e8(1, 4)
+        Bn = Node("par", "x", [pf(at(0, 0)), pf(at(b1, 0)), pf(at(0, b2))])
+    elif conf == "hole":
+        a1, a2, b1, b2 = e8(1, 3), e8(1, 3), e8(1, 3), e8(1, 3)
+        Bn = Node("par", "x", [pf(at(a1, a2)), pf(at(a1 + b1, a2)), pf(at(a1, a2 + b2))])
+    elif conf == "tri-on-edge":
+        a, b1, b2 = e8(1, 4), e8(1, 3), e8(1, 4)
+        Bn = Node("tri", "x", [pf(at(a, 0)), pf(at(a + b1, 0)), pf(at(a, b2))])
+    else:
+        a2, b1, b2 = e8(0, 3), e8(2, 8), e8(2, 4)
+        Bn = Node("par", "x", [pf(at(1, a2)), pf(at(1 + b1, a2)), pf(at(1, a2 + b2))])
+    if rng.random() < 0.3:
+        Bn.pfs[1], Bn.pfs[2] = Bn.pfs[2], Bn.pfs[1]          # other vertex orientation
+    if conf == "adjacent":
+        flags = {"disjoint": True} if (rng.random() < 0.6 if flagged is None else flagged) else {}
+        return Node("union", None, [], [A, Bn] if rng.random() < 0.5 else [Bn, A], flags), conf
+    flags = {"contained": True} if (rng.random() < 0.7 if flagged is None else flagged) else {}
+    return Node("cut", None, [], [A, Bn], flags), conf
+
+
 FLIP_ROWS = [Fr(0), Fr(1, 8), Fr(1, 4), Fr(3, 8), Fr(5, 8), Fr(3, 4), Fr(7, 8), Fr(1)]
 
 
@@ -206,7 +275,7 @@ def gen_bool(g, rng, depth, var, envs, top=None):
 def make_case(ctx, idx):
     rng = ctx.rng
     mode = rng.choice(["prim2", "prim2", "prim1", "prim3", "bool2", "bool2", "bool2", "bool2", "bool1", "bool3",
-                       "flip2", "flip2", "overinter"])
+                       "flip2", "flip2", "overinter", "badint", "badint", "touch", "touch"])
     params = rng.choice([[], [], ["t"], ["t"], ["t", "D"]])
     if mode == "flip2":
         params = ["t"]
@@ -231,6 +300,22 @@ def make_case(ctx, idx):
             disc = Node("circle", "x", [PF([c(o[0]), c(o[1])]), PF([c(r)])])
             op = rng.choice(["union", "cut", "inter"])
             node = Node(op, None, [], [node, disc] if rng.random() < 0.6 else [disc, node])
+    elif mode == "badint":
+        a = gen_bad_interval(rng, params)
+        node = a
+        if rng.random() < 0.4:
+            # union / cut / intersection with an overlapping ordinary interval around one of its end points
+            from geomgen import PF, c
+            l0 = a.pfs[0].eval(envs[0])[0]; u0 = a.pfs[1].eval(envs[0])[0]
+            w = (u0 - l0) / 4
+            m = Fr(int((l0 + (u0 - l0) * rng.choice([Fr(1, 2), Fr(3, 4)])) * 1024), 1024)
+            other = Node("interval", "y", [PF([c(m)]), PF([c(m + Fr(int((u0 - l0) * 1024) + 1, 1024))])])
+            op = rng.choice(["union", "cut", "inter"])
+            node = Node(op, None, [], [a, other])
+        wrap = rng.choice(["bdry", "bdry", "bdry", "bdryL", "bdryR"]) if node is a else "bdry"
+    elif mode == "touch":
+        params, envs = [], [{}]
+        node, _conf = gen_touching(rng)
     elif mode == "overinter":
         # union / cut built on top of an intersection
         inner = gen_bool(g, rng, 2, "x", envs, top="inter")
@@ -261,6 +346,30 @@ def make_case(ctx, idx):
                 seed=rng.randint(0, 2 ** 31 - 1), m=ctx.scale(4, 6))
 
 
+def to_tp_flags(node, tp):
+    """like geomgen.Node.to_tp, but honours flags={'contained': True} / {'disjoint': True} through the operation classes
+    (they are not exported from tp.domains)"""
+    if node.kind in ("union", "cut", "inter"):
+        a, b = to_tp_flags(node.kids[0], tp), to_tp_flags(node.kids[1], tp)
+        if node.kind == "union":
+            if node.flags.get("disjoint"):
+                from torchphysics.problem.domains.domainoperations.union import UnionDomain
+                return UnionDomain(a, b, disjoint=True)
+            return a + b
+        if node.kind == "cut":
+            if node.flags.get("contained"):
+                from torchphysics.problem.domains.domainoperations.cut import CutDomain
+                return CutDomain(a, b, contained=True)
+            return a - b
+        return a & b
+    return node.to_tp(tp)
+
+
+def boundary_of(solid, wrap, tp):
+    d = to_tp_flags(solid, tp)
+    return d.boundary if wrap == "bdry" else d.boundary_left if wrap == "bdryL" else d.boundary_right
+
+
 def parse_envs(case):
     return [{p: [Fr(a) for a in v] for p, v in e.items()} for e in case["envs"]]
 
@@ -286,7 +395,7 @@ def run_impl(case, rep, fixed_points=None):
     tp = common.use_repo()
     import torch
     solid = geomgen.from_json(case["dom"])
-    B = Node(case["wrap"], None, [], [solid]).to_tp(tp)
+    B = boundary_of(solid, case["wrap"], tp)
     envs = parse_envs(case)
     var = solid.vars()[0]
     rows = []
@@ -389,7 +498,7 @@ def step_plan(solid, env, p):
     if not on:
         return "skip", "off-boundary"
     if len({gi for gi, _, _ in on}) > 1:
-        return "skip", "junction"
+        return coincident_plan(lvs, geoms, on, other, p, eta)
     gi = on[0][0]
     kind, data, scale = geoms[gi]
     eps = 4e-3 * scale
@@ -424,6 +533,61 @@ def step_plan(solid, env, p):
     if dn == 0:
         return "skip", "degenerate"
     return "ok", eps, dict(leaf=lvs[gi].kind, corner=len(on) == 2, u=[(a - b) / dn for a, b in zip(p, ctr)])
+
+
+def coincident_plan(lvs, geoms, on, other, p, eta):
+    """boundary pieces of several leaves meet at p.  If they all lie on ONE straight line (2-D: collinear edges, p in the
+    interior of each) or are end points of intervals (1-D), the neighbourhood of p is split into two sides and the question
+    "is p on the boundary of the composite" is still decided exactly by the membership on the two sides; crossings stay skipped"""
+    kinds = {geoms[gi][0] for gi, _, _ in on}
+    scale = min(geoms[gi][2] for gi, _, _ in on)
+    extra = [d for _, _, d in other]
+    if kinds <= {"interval"}:
+        u = [1.0]
+    elif kinds <= {"par", "tri"}:
+        segs = [geoms[gi][1][pi] for gi, pi, _ in on]
+        (a0, b0) = segs[0]
+        d0 = (b0[0] - a0[0], b0[1] - a0[1])
+        L0 = math.hypot(*d0)
+        for a, b in segs[1:]:
+            dd = (b[0] - a[0], b[1] - a[1])
+            if abs(d0[0] * dd[1] - d0[1] * dd[0]) > 1e-9 * L0 * math.hypot(*dd):
+                return "skip", "junction"
+        if d0[0] != 0 and d0[1] != 0:
+            # slanted shared line: whether the library sees p inside or outside a partner depends on float32 rounding
+            return "skip", "junction"
+        for a, b in segs:
+            extra += [math.dist(p, a), math.dist(p, b)]          # p must be inside every one of the coincident segments
+        u = [-d0[1] / L0, d0[0] / L0]
+    else:
+        return "skip", "junction"
+    eps = 4e-3 * scale
+    if extra:
+        eps = min(eps, 0.4 * min(extra))
+    if eps < 10 * eta:
+        return "skip", "junction"
+    return "ok", eps, dict(leaf="+".join(sorted(lvs[gi].kind for gi in {g_ for g_, _, _ in on})), corner=False, u=u,
+                           coincident=sorted({gi for gi, _, _ in on}))
+
+
+def lca_kinds(solid, idxs):
+    """kinds of the lowest common ancestors of the given leaves (indices into leaves(solid)), pairwise"""
+    lvs = leaves(solid)
+    def path(node, target, acc):
+        if node is target:
+            return acc + [node]
+        for k_ in node.kids:
+            r_ = path(k_, target, acc + [node])
+            if r_:
+                return r_
+        return None
+    out = set()
+    ps = [path(solid, lvs[i], []) for i in idxs]
+    for i in range(len(ps)):
+        for j in range(i + 1, len(ps)):
+            common_ = [a for a, b in zip(ps[i], ps[j]) if a is b]
+            out.add(common_[-1].kind)
+    return sorted(out)
 
 
 def perp_plan(solid, env, p):
@@ -499,6 +663,8 @@ def evaluate(ctx, rep, cases, fixed=None):
                     out = [a + eps * b for a, b in zip(pe[var], nf)]
                     inn = [a - eps * b for a, b in zip(pe[var], nf)]
                     ent["step"] = dict(eps=float(eps), info={k_: v_ for k_, v_ in pl[2].items() if k_ != "u"}, at=len(lines))
+                    if pl[2].get("coincident"):
+                        ent["step"]["info"]["lca"] = lca_kinds(solid, pl[2]["coincident"])
                     lines.append(f"contains {ATOL} {RTOL} {BATOL} {st} {env_tokens({var: out})} {env_tokens(env)}")
                     lines.append(f"contains {ATOL} {RTOL} {BATOL} {st} {env_tokens({var: inn})} {env_tokens(env)}")
                     # guard: is p on the composite's boundary at all?  membership must flip across p along the ray from
@@ -580,16 +746,24 @@ def judge(rep, cs, solid, ent, replies):
             if not on_boundary:
                 # the exact membership does not change across the point: not a boundary point of the composite
                 rep.count("step-skipped:not-on-composite-boundary")
-                if from_sampler:
+                if "inter" in st["info"].get("lca", []) and gu == "0":
+                    # the two operands of an intersection only touch along this piece: locally the set has no interior
+                    rep.count("step-skipped:degenerate-touching-intersection")
+                elif from_sampler:
                     o, i = replies[st["at"]].split()[0], replies[st["at"] + 1].split()[0]
+                    shared = "union" in st["info"].get("lca", []) and gu == "1"
+                    if shared:
+                        rep.count("points-on-interior-shared-piece-of-a-union")
                     rep.fail(f"the boundary sampler ({r['src']}) returned the point {r['p']} that is not on the boundary of the domain (exact "
                              f"membership is {'inside' if gu == '1' else 'outside'} on both sides of it, ε = {st['eps']:.3g}); normal() returned {nv} "
                              f"there, which is not outward: p + εn inside = {o}, p − εn inside = {i}", inp,
-                             detail=dict(normal=nv, eps=st["eps"], plus=o, minus=i))
+                             detail=dict(normal=nv, eps=st["eps"], plus=o, minus=i),
+                             finding="union_shared_boundary_piece" if shared else None)
         if on_boundary:
             o, i = replies[st["at"]].split()[0], replies[st["at"] + 1].split()[0]
             rep.count("step-tested")
-            rep.count("step-tested:" + st["info"]["leaf"] + (":corner" if st["info"]["corner"] else ""))
+            rep.count("step-tested:" + st["info"]["leaf"] + (":corner" if st["info"]["corner"] else "") +
+                      (":coincident" if st["info"].get("coincident") else ""))
             if o != "0" or i != "1":
                 what = []
                 if o != "0":
@@ -632,6 +806,37 @@ def judge(rep, cs, solid, ent, replies):
         rep.disagree("drivers/C06.lean normal: vectors differ by more than 1e-4", inp, nv, mv)
 
 
+BAD_INTERVALS = [(-5, 0.01), (-1, 0.001), (-40, 0.1), (-17, 0.004), (-64, 0.03), (-2.3, 0.0007), (-7.7, -0.0123),
+                 (-0.002, 9.0), (100.0, 100.03), (-3.0, 0.0)]
+
+
+def bad_interval_cases(ctx):
+    """fixed stream: intervals whose end points differ by orders of magnitude (float32 values of decimal numbers), alone, with
+    a parameter-dependent variant `[lb − t, ub·(1 + t)]`, and inside a union / cut"""
+    from geomgen import PF, c, v
+    rng = ctx.rng
+    out = []
+    for i, (lb, ub) in enumerate(BAD_INTERVALS):
+        lb, ub = Fr(f32(lb)), Fr(f32(ub))
+        plain = Node("interval", "y", [PF([c(lb)]), PF([c(ub)])])
+        dep = Node("interval", "y", [PF([("-", c(lb), v("t"))]), PF([("*", c(ub), ("+", c(1), v("t")))])])
+        mid = Fr(f32(float(lb + (ub - lb) * Fr(3, 4))))
+        other = Node("interval", "y", [PF([c(mid)]), PF([c(Fr(f32(float(ub + (ub - lb) / 2))))])])
+        variants = [(plain, [], [{}]), (Node(rng.choice(["union", "cut", "inter"]), None, [], [plain, other]), [], [{}])]
+        if ub > 0:
+            variants.append((dep, ["t"], [{"t": [str(Fr(rng.randint(1, 16), 16))]} for _ in range(rng.choice([1, 2]))]))
+        for node, params, envs in variants:
+            out.append(dict(id=10000 + len(out), mode="badint-fixed", wrap="bdry", dom=node.describe(), params=params,
+                            envs=[{k_: [str(a) for a in v_] for k_, v_ in e.items()} for e in envs], n=rng.choice([4, 7, 8]),
+                            seed=rng.randint(0, 2 ** 31 - 1), m=2))
+    # fixed touching configurations built with the `contained` / `disjoint` flags
+    for conf, flagged in (("edge", True), ("corner", True), ("tri-on-edge", True), ("hole", True), ("adjacent", True), ("edge", False)):
+        node, _ = gen_touching(rng, conf, flagged)
+        out.append(dict(id=10000 + len(out), mode="touch-fixed", wrap="bdry", dom=node.describe(), params=[], envs=[{}],
+                        n=rng.choice([12, 16, 24]), seed=rng.randint(0, 2 ** 31 - 1), m=3))
+    return out
+
+
 def run(ctx, rep, cases=None):
     rep.rule = ("boundary expressions from the public constructors: boundaries of interval / parallelogram / triangle (both vertex "
                 "orientations) / disc / ball and of nested unions, cuts, intersections of them with really overlapping operands, "
@@ -641,7 +846,7 @@ def run(ctx, rep, cases=None):
                 "constructed edge / corner / arc points accepted by the boundary's membership test; non-trivial = at least one boundary "
                 "point was obtained and the expression is not a bare constant interval; distinct = distinct (expression, rows, points)")
     if cases is None:
-        cases = [make_case(ctx, i) for i in range(ctx.scale(105, 1300))]
+        cases = [make_case(ctx, i) for i in range(ctx.scale(105, 1300))] + bad_interval_cases(ctx)
     evaluate(ctx, rep, cases)
     opaque_streams(ctx, rep)
     h = rep.hist
